@@ -5,7 +5,16 @@
 #include <dmlc/recordio.h>
 #include <memory>
 #include <recordio.cc>  // /repo/src/recordio.cc, for the inline FindNextRecordIOHead
+#include <io/recordio_split.h>
+#include "common/memfs.h"
 #include "common/proto.h"
+
+// RecordIOSplitter's two scans (the partition-boundary scan and the chunk-cut scan) made callable
+struct ScanSplitter : public dmlc::io::RecordIOSplitter {
+  ScanSplitter(dmlc::io::FileSystem *fs, const char *uri) : dmlc::io::RecordIOSplitter(fs, uri, 0, 1, false) {}
+  size_t Seek(dmlc::Stream *fi) { return this->SeekRecordBegin(fi); }
+  const char *Last(const char *b, const char *e) { return this->FindLastRecordBegin(b, e); }
+};
 
 using vh::Case;
 
@@ -90,6 +99,26 @@ struct RecHarness : vh::Harness {
       }
       return show(recs);
     }
+    if (w[0] == "fixedrt") {
+      // the same records through MemoryFixedSizeStream buffers of EXACTLY the encoded size
+      std::string mem(buf.size(), '\xee');
+      try {
+        {
+          dmlc::MemoryFixedSizeStream ws(&mem[0], mem.size());
+          dmlc::RecordIOWriter wr(&ws);
+          for (auto &rec : written) wr.WriteRecord(rec);
+          if (ws.Tell() != mem.size()) return "short-write " + std::to_string(ws.Tell());
+        }
+        dmlc::MemoryFixedSizeStream rs(&mem[0], mem.size());
+        dmlc::RecordIOReader reader(&rs);
+        std::vector<std::string> recs;
+        std::string rec;
+        while (reader.NextRecord(&rec)) recs.push_back(rec);
+        return show(recs);
+      } catch (const dmlc::Error &) {
+        return "err:check";
+      }
+    }
     if (w[0] == "chunk" && w.size() == 3) {
       unsigned k = strtoul(w[1].c_str(), nullptr, 10), n = strtoul(w[2].c_str(), nullptr, 10);
       std::vector<uint32_t> mem(buf.size() / 4 + 1);
@@ -106,6 +135,27 @@ struct RecHarness : vh::Harness {
         return "invalid";
       }
       return show(recs);
+    }
+    if ((w[0] == "sseek" || w[0] == "slast") && w.size() == 2) {
+      size_t o = strtoull(w[1].c_str(), nullptr, 10);
+      if (buf.empty()) return "no-file";
+      if (o > buf.size()) return "out-of-range";
+      vh::MemFS fs;
+      fs.Put("/m/f0", buf);
+      std::vector<uint32_t> mem(buf.size() / 4 + 2);
+      memcpy(mem.data(), buf.data(), buf.size());
+      char *base = reinterpret_cast<char *>(mem.data());
+      try {
+        ScanSplitter sp(&fs, "/m/f0");
+        if (w[0] == "sseek") {
+          dmlc::MemoryFixedSizeStream ms(base, buf.size());
+          ms.Seek(o);
+          return "nstep " + std::to_string(sp.Seek(&ms));
+        }
+        return "last " + std::to_string(sp.Last(base, base + o) - base);
+      } catch (const dmlc::Error &) {
+        return "err:check";
+      }
     }
     if (w[0] == "scan" && w.size() == 2) {
       size_t o = strtoull(w[1].c_str(), nullptr, 10);
@@ -156,7 +206,11 @@ struct RecHarness : vh::Harness {
     for (size_t i = 0; i < c.ops.size(); ++i) {
       auto w = vh::split_ws(c.ops[i]);
       const std::string &r = res[i];
-      if (w[0] == "readall") {
+      if (w[0] == "fixedrt") {
+        if (r != show(written))
+          fail->push_back("class=none prop=C01 round trip through exact-size MemoryFixedSizeStream buffers fails: " +
+                          r.substr(0, 200));
+      } else if (w[0] == "readall") {
         if (r != show(written))
           fail->push_back("class=none prop=C01 read-back differs from written records: " + r.substr(0, 200));
       } else if (w[0] == "dump") {
@@ -177,6 +231,24 @@ struct RecHarness : vh::Harness {
           fail->push_back("class=none prop=C01 except_counter != number of aligned magic words: " + r);
       } else if (w[0] == "chunk") {
         // collected below
+      } else if (w[0] == "sseek") {
+        size_t o = strtoull(w[1].c_str(), nullptr, 10);
+        if (o % 4 != 0 || buf.empty() || o > buf.size()) continue;
+        size_t want = buf.size();
+        for (size_t st : starts)
+          if (st >= o) { want = st; break; }
+        if (r != "nstep " + std::to_string(want - o))
+          fail->push_back("class=none prop=C02 RecordIOSplitter::SeekRecordBegin from " + w[1] + " gives " + r +
+                          ", next record start is at +" + std::to_string(want - o));
+      } else if (w[0] == "slast") {
+        size_t e = strtoull(w[1].c_str(), nullptr, 10);
+        if (e % 4 != 0 || e < 8 || buf.empty() || e > buf.size()) continue;
+        size_t want = 0;
+        for (size_t st : starts)
+          if (st > 0 && st + 8 <= e) want = st;
+        if (r != "last " + std::to_string(want))
+          fail->push_back("class=none prop=C02 RecordIOSplitter::FindLastRecordBegin(0," + w[1] + ") gives " + r +
+                          ", last record start inside is " + std::to_string(want));
       } else if (w[0] == "scan") {
         size_t o = strtoull(w[1].c_str(), nullptr, 10);
         if (o % 4 != 0) continue;
@@ -267,9 +339,12 @@ static void add_queries(Case *c, size_t stream_len, bool chunks) {
   c->ops.push_back("dump");
   c->ops.push_back("counter");
   c->ops.push_back("readall");
+  c->ops.push_back("fixedrt");
   if (!chunks) return;
   size_t words = stream_len / 4;
   for (size_t o = 0; o <= stream_len; o += 4) c->ops.push_back("scan " + std::to_string(o));
+  for (size_t o = 0; o <= stream_len; o += 4) c->ops.push_back("sseek " + std::to_string(o));
+  for (size_t o = 8; o <= stream_len; o += 4) c->ops.push_back("slast " + std::to_string(o));
   size_t maxn = words + 2;
   if (maxn > 14) maxn = 14;
   for (size_t n = 1; n <= maxn; ++n)
